@@ -177,3 +177,87 @@ Definition wf (s : state) : Prop :=
   (cursor s < length (ring s))%nat \/ (ring s = [] /\ cursor s = 0%nat).
 Definition wfb (s : state) : bool :=
   (cursor s <? length (ring s))%nat || ((length (ring s) =? 0)%nat && (cursor s =? 0)%nat).
+
+(** * The keyed limiter map of acmeClient.throttle (acmeclient.go)
+
+    [rateLimiters] maps "directory,email" to a limiter.  In the code the look-up and the
+    insertion of a new limiter are one critical section of rateLimitersMu: label [KThrottle].
+    The variant in which they are two sections (look up under one lock, insert under another
+    without looking again) is [kstep_split] with labels [KLookup] / [KInsert]; it is here only
+    to say what goes wrong when the section is split.  Limiters are numbered in the order of
+    their creation; every step that hands a caller its limiter emits (key, limiter). *)
+From CM Require Import Lib.Str.
+
+Record kstate := KSt {
+  kmap : list (str * nat);          (* newest entry first: a later insert shadows an older one *)
+  knext : nat;
+  kpend : list (nat * str)          (* split variant: callers that looked up and missed *)
+}.
+Definition kinit : kstate := KSt [] 0 [].
+
+Inductive klabel :=
+| KThrottle (tid : nat) (key : str)
+| KLookup (tid : nat) (key : str)
+| KInsert (tid : nat).
+
+Fixpoint klookup (key : str) (m : list (str * nat)) : option nat :=
+  match m with
+  | [] => None
+  | (k, l) :: r => if str_eqb key k then Some l else klookup key r
+  end.
+
+Definition kstep_atomic (s : kstate) (l : klabel) : option (kstate * option (str * nat)) :=
+  match l with
+  | KThrottle _ key =>
+      match klookup key (kmap s) with
+      | Some lim => Some (s, Some (key, lim))
+      | None => Some (KSt ((key, knext s) :: kmap s) (S (knext s)) (kpend s), Some (key, knext s))
+      end
+  | _ => None
+  end.
+
+Fixpoint take_pend (tid : nat) (p : list (nat * str)) : option (str * list (nat * str)) :=
+  match p with
+  | [] => None
+  | (t, k) :: r => if (t =? tid)%nat then Some (k, r)
+                   else match take_pend tid r with Some (k', r') => Some (k', (t, k) :: r') | None => None end
+  end.
+
+Definition kstep_split (s : kstate) (l : klabel) : option (kstate * option (str * nat)) :=
+  match l with
+  | KLookup tid key =>
+      match klookup key (kmap s) with
+      | Some lim => Some (s, Some (key, lim))
+      | None => Some (KSt (kmap s) (knext s) ((tid, key) :: kpend s), None)
+      end
+  | KInsert tid =>
+      match take_pend tid (kpend s) with
+      | Some (key, p) => Some (KSt ((key, knext s) :: kmap s) (S (knext s)) p, Some (key, knext s))
+      | None => None
+      end
+  | KThrottle _ _ => None
+  end.
+
+Fixpoint krun (step : kstate -> klabel -> option (kstate * option (str * nat)))
+         (s : kstate) (ls : list klabel) : option (kstate * list (str * nat)) :=
+  match ls with
+  | [] => Some (s, [])
+  | l :: r =>
+      match step s l with
+      | None => None
+      | Some (s', ev) =>
+          match krun step s' r with
+          | None => None
+          | Some (s'', evs) => Some (s'', match ev with Some e => e :: evs | None => evs end)
+          end
+      end
+  end.
+
+(** the limiters handed out for [key], without repetition *)
+Fixpoint limiters_of (key : str) (evs : list (str * nat)) : list nat :=
+  match evs with
+  | [] => []
+  | (k, l) :: r =>
+      let rest := limiters_of key r in
+      if str_eqb key k && negb (existsb (Nat.eqb l) rest) then l :: rest else rest
+  end.
